@@ -3,7 +3,7 @@
 //! compared with an independently built Plutus Data value: constructor index = index of the case in
 //! the type declaration, fields in DECLARATION order whatever order the construction site writes
 //! them in, integers exact (CBOR int inside +-2^64, bignum beyond), bytes unchanged.
-//! BOUND: 9 templates (record with permuted fields, variant cases with permuted fields, a case named `Default` in a
+//! BOUND: 12 templates (field names differing only in case, the unit datum, a field-less first case, record with permuted fields, variant cases with permuted fields, a case named `Default` in a
 //! non-first position, a field-less last case, nested same-named cases, maps with repeated literal / computed keys, a list
 //! with repeated items)
 //! x 9 boundary integers.
@@ -24,6 +24,7 @@ type Mode { Fast { speed: Int, }, Default { level: Int, }, Idle, }
 type Inner { Pair { second: Int, first: Int, }, Empty, }
 type Outer { Empty, Pair { first: Int, second: Inner, }, }
 type Book { entries: Map<Int, Int>, }
+type CasePair { a: Int, A: Int, ab: Int, aB: Int, }
 type Shelf { items: List<Int>, tail: Bytes, }
 tx record_permuted(n: Int) {
     input source { from: Sender, min_amount: Ada(2000000) + fees, }
@@ -63,6 +64,21 @@ tx map_with_computed_keys(n: Int) {
 tx list_with_repeats(n: Int) {
     input source { from: Sender, min_amount: Ada(2000000) + fees, }
     output { to: Receiver, amount: Ada(2000000), datum: Shelf { items: [n, 2, n, 2, 1], tail: 0x00, }, }
+    output { to: Sender, amount: source - Ada(2000000) - fees, }
+}
+tx fields_differing_in_case(n: Int) {
+    input source { from: Sender, min_amount: Ada(2000000) + fees, }
+    output { to: Receiver, amount: Ada(2000000), datum: CasePair { aB: 4, A: 2, ab: 3, a: n, }, }
+    output { to: Sender, amount: source - Ada(2000000) - fees, }
+}
+tx unit_datum(n: Int) {
+    input source { from: Sender, min_amount: Ada(2000000) + fees, }
+    output { to: Receiver, amount: Ada(2000000), datum: (), }
+    output { to: Sender, amount: source - Ada(2000000) - fees, }
+}
+tx fieldless_first_case(n: Int) {
+    input source { from: Sender, min_amount: Ada(2000000) + fees, }
+    output { to: Receiver, amount: Ada(2000000), datum: Outer::Empty {}, }
     output { to: Sender, amount: source - Ada(2000000) - fees, }
 }
 tx variant_second(n: Int) {
@@ -128,6 +144,10 @@ fn main() {
             ("fieldless_last_case", constr_data(2, vec![])),
             // each constructor uses the declaration order of ITS OWN case: Outer::Pair [first, second], Inner::Pair [second, first]
             ("nested_same_case_name", constr_data(1, vec![int_data(n), constr_data(0, vec![int_data(2), int_data(3)])])),
+            ("fields_differing_in_case", constr_data(0, vec![int_data(n), int_data(2), int_data(3), int_data(4)])),
+            // the unit value and a field-less first case are data like any other: constructor 0 without fields
+            ("unit_datum", constr_data(0, vec![])),
+            ("fieldless_first_case", constr_data(0, vec![])),
             ("map_with_repeated_key", constr_data(0, vec![map_data(vec![(int_data(1), int_data(n)), (int_data(2), int_data(20)), (int_data(1), int_data(30))])])),
             ("map_with_computed_keys", constr_data(0, vec![map_data(vec![(int_data(n), int_data(1)), (int_data(7), int_data(n)), (int_data(n), int_data(3)), (int_data(5), int_data(5))])])),
             ("list_with_repeats", constr_data(0, vec![list_data(vec![int_data(n), int_data(2), int_data(n), int_data(2), int_data(1)]), bytes_data(&[0])])),
